@@ -5,7 +5,7 @@ set -e
 FL=${1:-O1}
 ROOT=$(cd "$(dirname "$0")/.." && pwd)
 REPO=${DRACO_REPO:-/repo}
-B=$ROOT/.cache/build-$FL
+if [ "$REPO" = "/repo" ]; then B=$ROOT/.cache/build-$FL; else B=$ROOT/.cache/build-$FL-$(echo "$REPO" | md5sum | cut -c1-8); fi
 mkdir -p "$ROOT/.cache"
 case $FL in
   O1)   FLAGS="-O1 -DNDEBUG -DDRACO_VERIF -ffunction-sections -fdata-sections" ;;
@@ -21,5 +21,5 @@ esac
       || { cat "$B.cmake.log" >&2; exit 3; }
   fi
   ninja -C "$B" draco_static >"$B.ninja.log" 2>&1 || { tail -40 "$B.ninja.log" >&2; exit 3; }
-) 9>"$ROOT/.cache/build-$FL.lock"
+) 9>"$B.lock"
 echo "$B"
